@@ -33,6 +33,9 @@ Section WithDigest.
     | OSaveRow o alg v =>
         alg = w_alg w -> forall ob, lookup o (w_objs w) = Some ob ->
         split_dot0 v = split_dot0 (H alg (o_bytes ob))
+    | OXfer v items =>     (* the add_ok of the add it performs, in the world its existence query leaves *)
+        let r := oids_exist H w (map it_oid items) in
+        add_ok H (snd r) (Some v) (xfer_new (fst r) items)
     | _ => True
     end.
 
@@ -102,14 +105,34 @@ Section WithDigest.
     induction items as [|i items IH]; intros w I; simpl; auto. apply IH. now apply inv_check.
   Qed.
 
+  Lemma inv_check_seq os : forall w, Inv w -> Inv (snd (check_seq H w os)).
+  Proof.
+    induction os as [|o' os IH]; intros w I; simpl; auto.
+    destruct (fst (check w o') =? 0); [apply IH|]; now apply inv_check.
+  Qed.
+
+  Lemma inv_oids_exist w os : Inv w -> Inv (snd (oids_exist H w os)).
+  Proof.
+    intros I. unfold oids_exist. destruct (w_cls w); simpl; auto. now apply inv_exist_fold.
+  Qed.
+
   (* steps that leave the objects alone keep trusted_ok *)
   Lemma trusted_same_objs w w' o : w_objs w' = w_objs w -> w_cls w' = w_cls w -> w_alg w' = w_alg w ->
     trusted_ok w o -> trusted_ok w' o.
   Proof. intros EO EC EA Tr ob L. rewrite EO in L. rewrite EC, EA. now apply Tr. Qed.
 
+  Lemma xfer_inv w v items : Inv w -> tick_ok w (OXfer v items) -> Inv (fst (step H w (OXfer v items))).
+  Proof.
+    intros I Tk. unfold tick_ok in Tk. cbv zeta in Tk.
+    change (fst (step H w (OXfer v items))) with (snd (xfer H w v items)). unfold xfer.
+    destruct (xfer_new (fst (oids_exist H w (map it_oid items))) items) as [|i new] eqn:E.
+    - simpl. now apply inv_oids_exist.
+    - cbn [snd]. apply add_inv; auto. now apply inv_oids_exist.
+  Qed.
+
   Lemma step_inv w p : Inv w -> tick_ok w p -> Inv (fst (step H w p)).
   Proof.
-    intros I Tk. destruct p as [v items|v items|o'|os|o'|d ents|o' b m t|o'|o'|o' alg v|]; simpl in *.
+    intros I Tk. destruct p as [v items|v items|o'|os|o'|d ents|o' b m t|o'|o'|o' alg v| |os|v items]; [simpl in * .. | idtac].
     - now apply add_inv.
     - unfold add_ro. destruct (match v with Some b => b | None => w_verify w end); auto.
       now apply inv_pre_fold.
@@ -159,6 +182,8 @@ Section WithDigest.
       destruct I as (Hon & Tr & FM). split; [|split; [|exact FM]].
       + intros o ob L r S Lr. simpl in Lr. discriminate.
       + intros o. now apply (trusted_same_objs w).
+    - now apply inv_check_seq.
+    - now apply xfer_inv.
   Qed.
 
   Theorem history_inv w h : Inv w -> ticks w h -> Inv (exec H w h).
